@@ -94,7 +94,8 @@ def reactor_cases(rng, tier):
     out = []
     sl = dict(scenarios.single_lattice(rng, tier))
     for k in ('rod2-adiabatic', 'rod3-flowgap', 'multi-simple',
-              'multi-6node', 'rod2-convapprox'):
+              'multi-6node', 'rod2-convapprox', 'rod3-dd-flowbyp',
+              'rod2-3duct', 'opt-dd-unequal-walls-regions'):
         out.append((k, sl[k]))
     # requested planes, close to boundaries and to each other
     c = copy.deepcopy(sl['rod3-flowgap'])
